@@ -94,3 +94,9 @@ func AddBx14(a int) int {
 	// the sum
 	return a + 14
 }
+
+// PlainB carries a directive that matches nothing: it is reported, on every run.
+func PlainB(a int) int {
+	//lint:ignore SA4006 nothing is wrong on the next line
+	return a
+}
